@@ -30,7 +30,7 @@ def plRegMode : String → Option RegMode
 def plReply : Plugin.Reply → String
   | .ok => "ok" | .errConnection => "err-connection" | .errBody => "err-body"
   | .errBadSig => "err-badsig" | .errExpiry => "err-expiry" | .errSlots => "err-slots"
-  | .errStatus => "err-status" | .errUnknown => "err-unknown"
+  | .errStatus => "err-status" | .errUnknown => "err-unknown" | .errBeingRetried => "err-being-retried"
 
 def plStep (s : St) (ws : List String) : St × String :=
   let withView (s' : St) (r : String) : St × String :=
@@ -51,6 +51,12 @@ def plStep (s : St) (ws : List String) : St × String :=
     | some t, some m =>
       withView { s with beh := fun x => if x = t then { s.beh t with once := 1, onceAdd := m } else s.beh x } "ok"
     | _, _ => (s, "bad-op")
+  | ["holdafter", t, l] => match t.toNat?, l.toNat? with
+    | some t, some l => withView (s.holdAfter t l) "held"
+    | _, _ => (s, "bad-op")
+  | ["release", t, m] => match t.toNat?, plAddMode m with
+    | some t, some m => withView (s.release t m) "released"
+    | _, _ => (s, "bad-op")
   | ["reg", t, m] => match t.toNat?, plRegMode m with
     | some t, some m =>
       withView { s with beh := fun x => if x = t then { s.beh t with reg := m } else s.beh x } "ok"
@@ -66,6 +72,7 @@ def plStep (s : St) (ws : List String) : St × String :=
     | some t => let (s', r) := s.abandon t; withView s' (plReply r)
     | none => (s, "bad-op")
   | ["restart"] => withView s.restart "ok"
+  | ["nop"] => (s, "ok")
   | _ => (s, "bad-op")
 
 end Teos.Drv
